@@ -43,10 +43,30 @@ def d4(ck: Check) -> None:
     prog = ck.prog
     fm = prog.fm(CTRL, "find_drivers")
     f = fm.f
+    # the names the function uses for its working data are found by role, not by spelling
+    res = next((r.value.id for r in own_walk(f.node) if isinstance(r, ast.Return) and isinstance(r.value, ast.Name)), None)
+    combos = [n for n in own_walk(f.node) if isinstance(n, ast.For) and isinstance(n.iter, ast.Call) and callee_name(n.iter) == "combinations"
+              and len(n.iter.args) == 2]
+    if not combos:
+        raise AnalysisError("anchor vanished: combinations(...) loop of find_drivers")
+    cl = combos[0]
+    pool_e = cl.iter.args[0]
+    while isinstance(pool_e, ast.Call) and callee_name(pool_e) in ("sorted", "list", "tuple") and pool_e.args:
+        pool_e = pool_e.args[0]
+    if not isinstance(pool_e, ast.Name):
+        raise AnalysisError("anchor vanished: driver pool of find_drivers")
+    POOL = pool_e.id
+    target_p = f.params()[1]
+    # the inner motif: the target restricted to variables that are not assumed fixed
+    inner_names = set()
+    for n in own_walk(f.node):
+        if isinstance(n, ast.Assign) and isinstance(n.targets[0], ast.Name) and isinstance(n.value, ast.DictComp) \
+                and target_p in text(n.value.generators[0].iter):
+            inner_names.add(n.targets[0].id)
     # pool minus forbidden in both strategies
-    pools = [n for n in own_walk(f.node) if isinstance(n, ast.Assign) and text(n.targets[0]) == "driver_pool"]
+    pools = [n for n in own_walk(f.node) if isinstance(n, ast.Assign) and text(n.targets[0]) == POOL]
     if len(pools) < 2:
-        raise AnalysisError("anchor vanished: driver_pool definitions")
+        raise AnalysisError("anchor vanished: driver pool definitions")
     for p in pools:
         v = p.value
         ok = isinstance(v, ast.BinOp) and isinstance(v.op, ast.Sub) and text(v.right) == "forbidden_drivers" \
@@ -55,13 +75,16 @@ def d4(ck: Check) -> None:
         pc = fm.pc(fm.cfgn(p))
         if ok:
             src = text(v.left.args[0])
-            if logic.implies(pc, logic.B("eq:'internal'|strategy")) and "target_trap_space_inner" not in src:
+            if logic.implies(pc, logic.B("eq:'internal'|strategy")) and not any(nm in src for nm in inner_names):
                 probs.append("internal strategy draws drivers from outside the motif")
             if logic.implies(pc, logic.B("eq:'all'|strategy")) and "network_variable_names" not in src:
                 probs.append("strategy 'all' does not draw drivers from all network variables")
-        ck.ob("D4", fm, p, not probs, "; ".join(probs) if probs else "pool = candidates minus forbidden drivers")
+        ck.ob("D4", fm, p, not probs, "; ".join(probs) if probs else "pool = candidates minus forbidden drivers",
+              key="driver pool " + ("internal" if logic.implies(pc, logic.B("eq:'internal'|strategy")) else
+                                    "all" if logic.implies(pc, logic.B("eq:'all'|strategy")) else text(p)[:60]))
     # sizes ascend from 0 to max
-    loops = [n for n in own_walk(f.node) if isinstance(n, ast.For) and isinstance(n.iter, ast.Call) and callee_name(n.iter) == "range"]
+    loops = [n for n in own_walk(f.node) if isinstance(n, ast.For) and isinstance(n.iter, ast.Call) and callee_name(n.iter) == "range"
+             and any(x is cl for x in ast.walk(n))]
     probs = []
     if not loops:
         probs.append("driver set sizes are not enumerated with range()")
@@ -71,16 +94,16 @@ def d4(ck: Check) -> None:
         if len(r.args) > 2 or (len(r.args) == 2 and text(r.args[0]) != "0") or text(a) != "max_drivers_per_succession_node + 1":
             probs.append(f"sizes range over `{text(r)}`, expected range(max_drivers_per_succession_node + 1) (ascending from 0, bound "
                          f"included)")
-        inner = [n for n in ast.walk(loops[0]) if isinstance(n, ast.For) and isinstance(n.iter, ast.Call) and callee_name(n.iter) == "combinations"]
-        if not inner or text(inner[0].iter.args[0]) not in ("driver_pool", "sorted(driver_pool)") or text(inner[0].iter.args[1]) != text(loops[0].target):
+        if text(cl.iter.args[1]) != text(loops[0].target):
             probs.append("driver sets are not combinations(driver_pool, size)")
         dflt = [n for n in own_walk(f.node) if isinstance(n, ast.Assign) and text(n.targets[0]) == "max_drivers_per_succession_node"]
-        if not dflt or text(dflt[0].value) != "len(target_trap_space_inner)":
+        if not dflt or not any(text(dflt[0].value) == f"len({nm})" for nm in inner_names):
             probs.append("default size bound is not the size of the (inner) motif")
     ck.ob("D4", fm, loops[0] if loops else f.node, not probs, "; ".join(probs) if probs else
           "sizes 0..max ascending, sets = combinations(pool, size)", key="size enumeration")
     # subset skip
     probs = []
+    DS = text(cl.target)
     conts = [n for n in own_walk(f.node) if isinstance(n, ast.Continue)]
     sk = [c for c in conts if isinstance(f.parents.get(c), ast.If) and "any(" in text(f.parents[c].test)]
     if len(sk) != 1:
@@ -89,8 +112,8 @@ def d4(ck: Check) -> None:
         t = f.parents[sk[0]].test
         g = t.args[0] if isinstance(t, ast.Call) and t.args else None
         okf = isinstance(g, ast.GeneratorExp) and isinstance(g.elt, ast.Compare) and isinstance(g.elt.ops[0], ast.LtE) \
-            and text(g.elt.left) == f"set({text(g.generators[0].target)})" and "driver_set" in text(g.elt.comparators[0]) \
-            and text(g.generators[0].iter) == "drivers" and not g.generators[0].ifs
+            and text(g.elt.left) == f"set({text(g.generators[0].target)})" and DS in text(g.elt.comparators[0]) \
+            and text(g.generators[0].iter) == res and not g.generators[0].ifs
         if not okf:
             probs.append(f"a driver set is skipped when `{text(t)}`; expected: when some reported driver set is a subset of it")
     ck.ob("D4", fm, sk[0] if sk else f.node, not probs, "; ".join(probs) if probs else
@@ -115,23 +138,36 @@ def d4(ck: Check) -> None:
     ck.ob("D4", iv, st[0] if st else iv.f.node, not probs, "; ".join(probs) if probs else "successful = every step has a driver set",
           key="successful flag")
     sc = prog.fm(CTRL, "succession_control")
+    res_sc = next((r.value.id for r in own_walk(sc.f.node) if isinstance(r, ast.Return) and isinstance(r.value, ast.Name)), None)
     app = [n for n in own_walk(sc.f.node) if isinstance(n, ast.Call) and isinstance(n.func, ast.Attribute) and n.func.attr == "append"
-           and text(n.func.value) == "interventions"]
+           and text(n.func.value) == res_sc]
     probs = []
     if len(app) != 1:
         probs.append("interventions are not collected at one place")
     else:
-        pc = sc.pc(sc.cfgn(app[0]))
-        want = logic.Or(logic.Not(logic.B("T:successful_only")), logic.B("T:intervention.successful"))
-        facts = [x for x in sc.facts(sc.cfgn(app[0])) if x[2].loop is None]
-        tr = logic.Translator(lambda e: text(e))
+        an = sc.cfgn(app[0])
+        iv_e, iv_at = sc.deref_at(app[0].args[0], an)
+        # `<the intervention>.successful` under whatever local name
+        def atomize(e):
+            if isinstance(e, ast.Attribute) and e.attr == "successful":
+                v_, _ = sc.deref_at(e.value, an)
+                if v_ is iv_e:
+                    return logic.B("T:INTERVENTION.successful")
+            return None
+        facts = [x for x in sc.facts(an) if x[2].loop is None]
+        tr = logic.Translator(lambda e: text(e), atomize=atomize)
         pc = logic.And(*[(tr.f(t) if p else logic.Not(tr.f(t))) for t, p, b in facts])
+        want = logic.Or(logic.Not(logic.B("T:successful_only")), logic.B("T:INTERVENTION.successful"))
         if not logic.equivalent(pc, want):
             probs.append(f"an intervention is returned under `{logic.show(pc)}`, expected `not successful_only or successful`")
-        args = app[0].args[0]
-        sd_ = sc.single_def(args.id, sc.cfgn(app[0])) if isinstance(args, ast.Name) else None
-        if not (sd_ and isinstance(sd_[1], ast.Call) and callee_name(sd_[1]) == "Intervention"
-                and [text(a) for a in sd_[1].args] == ["controls", "strategy", "succession"]):
+        okc = isinstance(iv_e, ast.Call) and callee_name(iv_e) == "Intervention" and len(iv_e.args) == 3
+        if okc:
+            lp = [l for l in sc.cfg.enclosing_loops(an) if isinstance(l, ast.For)]
+            succ_v = text(lp[0].target) if lp else None
+            c0 = sc.deref(iv_e.args[0], iv_at)
+            okc = isinstance(c0, ast.Call) and callee_name(c0) == "drivers_of_succession" and len(c0.args) >= 2 \
+                and text(c0.args[1]) == succ_v and text(iv_e.args[1]) == "strategy" and text(iv_e.args[2]) == succ_v
+        if not okc:
             probs.append("the intervention is not built from this succession's controls, the strategy and the succession")
     # arguments forwarded to the driver search
     dc = [n for n in own_walk(sc.f.node) if isinstance(n, ast.Call) and callee_name(n) == "drivers_of_succession"]
